@@ -118,11 +118,12 @@ type Runner struct {
 	reg0    uint64
 	infoPtr interface{}
 
-	cur     *Unit
-	prev    *Unit
-	ctxFP   uint64
-	curC    string
-	lastGot string
+	cur      *Unit
+	prev     *Unit
+	sawBegin bool
+	ctxFP    uint64
+	curC     string
+	lastGot  string
 
 	Nonconfs         []Nonconf
 	Checks           int
@@ -279,6 +280,7 @@ func (r *Runner) hook(e *linter.VerifEvent) {
 			r.infoPtr = r.Ctx.TypesInfo
 		}
 	case "CheckBegin":
+		r.sawBegin = true
 		bl := e.BufLen
 		line := r.Tr.Emit(map[string]interface{}{"ev": "CheckBegin", "c": e.Checker, "bufLen": bl})
 		if bl != 0 {
@@ -424,6 +426,7 @@ func (r *Runner) Check(name string) {
 		panic string
 	}
 	done := make(chan res, 1)
+	r.sawBegin = false
 	go func() {
 		defer func() {
 			if p := recover(); p != nil {
@@ -442,6 +445,18 @@ func (r *Runner) Check(name string) {
 		}
 		rd := Digest(WarnStrings(r.Fset, x.ws))
 		line := r.Tr.Emit(map[string]interface{}{"ev": "CheckEnd", "c": name, "ret": rd})
+		if !r.sawBegin {
+			// Check returned without going through buffer reset / walk: not a behaviour of the lifecycle at all
+			d := []string{"Check returned without resetting its buffer and walking the file; it returned:"}
+			d = append(d, WarnStrings(r.Fset, x.ws)...)
+			for _, w := range x.ws {
+				if bad := WarnProblems(r.Fset, u.Phys, w); len(bad) != 0 {
+					d = append(d, "obligation "+strings.Join(bad, ",")+" :: "+WarnString(r.Fset, w))
+				}
+			}
+			r.nonconf(line, "ProtocolSkipped", name, u.ID, d)
+			return
+		}
 		if rd != r.lastGot {
 			r.nonconf(line, "RetNotBuf", name, u.ID, []string{"Check returned something else than its warning buffer"})
 		}
